@@ -195,6 +195,10 @@ class HTTP2Connection(ConnectionInterface):
                 # it as a RemoteProtocolError.
                 if self._connection_terminated:  # pragma: nocover
                     raise RemoteProtocolError(self._connection_terminated)
+                # Likewise, the connection may already have failed because of
+                # something that another stream has read from the network.
+                if self._read_exception is not None:
+                    raise self._read_exception
                 # If h2 raises a protocol error in some other state then we
                 # must somehow have made a protocol violation.
                 raise LocalProtocolError(exc)  # pragma: nocover
